@@ -146,6 +146,9 @@ def main(ctx, args):
             cs, _ = pc.gen_cases(ctx.seed, n, prof, times, start=off)
             off += n
             allcases += cs
+        # arrays (no reference semantics): stateful constructs in the index / the elements / nested accesses, in helpers and in dsp
+        import arrgen
+        allcases += arrgen.make(ctx.seed, 120 if ctx.tier == "quick" else 180)
     res = run_c05(allcases)
     lo_cases, lo_res = [], {}      # (no layout-only stream any more)
     # layout-only stream (compiled, not run: times = 0): the streams aimed AT findings F3 (state inside `if` arms) and F2
